@@ -395,6 +395,12 @@ def _gen_normalize(form):
                     yield {"form": form, "type": T, "terms": terms, "value": 3}
         rng = ctx.rng("c18.normalize." + form)
         n = ctx.pick(300, 6000)
+        # scaled coefficients that become zero (requested magnitude 0; a quotient that underflows): the key is dropped
+        for T in types:
+            labels = _pool(rng, T, 2)
+            yield {"form": form, "type": T, "terms": {(labels[0],): 1, (labels[1],): 2, (): -4}, "value": 0}
+            yield {"form": form, "type": T, "terms": {(labels[0],): 1e200, (labels[1],): 1e-200, (labels[0], labels[1]): 3.0},
+                   "value": None}
         # coefficients of other real types (Fraction, numpy scalars, and the numpy mix that subvalue leaves behind)
         for ctype in ("fraction", "np_int64", "np_float64", "np_float32", "mixed_np"):
             for T in types:
